@@ -95,6 +95,7 @@ impl Scenario for Order {
     fn name(&self) -> &'static str {
         match self.variant {
             "plain" => "order-plain",
+            "corpus" => "order-corpus",
             _ => "order-imports",
         }
     }
@@ -105,9 +106,11 @@ impl Scenario for Order {
          non-trivial = some name has >= 2 definitions and at least two executions registered them in different orders; distinct = spec hash x schedules"
     }
     fn runs(&self, tier: Tier) -> u64 {
-        match tier {
-            Tier::Quick => 1_500,
-            Tier::Thorough => 40_000,
+        match (self.variant, tier) {
+            ("corpus", Tier::Quick) => 40,
+            ("corpus", Tier::Thorough) => 1_500,
+            (_, Tier::Quick) => 1_500,
+            (_, Tier::Thorough) => 40_000,
         }
     }
     fn shrink_paths(&self) -> Vec<&'static str> {
@@ -135,7 +138,7 @@ impl Scenario for Order {
                 o.venv = rng.chance(300);
             }
         }
-        let spec = gen_ws(&mut rng, &o);
+        let spec = if self.variant == "corpus" { super::ws::corpus_spec() } else { gen_ws(&mut rng, &o) };
         let k = if tier == Tier::Quick { 4 } else { 8 };
         let mut sims = vec![];
         let mut orders = vec![];
